@@ -3580,6 +3580,13 @@ pub fn verif_reset_counters() {
     crate::scxml_reader::verif_reset_counters();
 }
 
+/// Verification hook: the next session id and platform id to be issued (simulated runs with multi-digit ids).
+#[cfg(rfsm_verif)]
+pub fn verif_set_id_bases(session_id: u32, platform_id: u32) {
+    SESSION_ID_COUNTER.store(session_id, Ordering::Relaxed);
+    PLATFORM_ID_COUNTER.store(platform_id, Ordering::Relaxed);
+}
+
 pub type TransitionId = u32;
 
 /// A state to state transition with references to content that shall be executed with the transition.
